@@ -154,7 +154,8 @@ pub fn encode(op: u8, rng: &mut Rng, avoid_rom_regs: bool) -> Vec<u8> {
 }
 
 /// One "safe" non-terminating instruction: never modifies H, L or SP, never writes through BC/DE, and
-/// writes memory only at (HL) (callers keep HL in work RAM), at a drawn work-RAM address or in high RAM.
+/// writes memory only at (HL) (callers keep HL in work RAM), at a drawn work-RAM address in 0xC000-0xC7FF or in high RAM
+/// 0xFF80-0xFFBF (so routines kept above those ranges are never overwritten).
 /// Reads may target the switchable ROM window (reveals the mapped bank).
 pub fn safe_instruction(rng: &mut Rng) -> Vec<u8> {
     const DEST: [u8; 5] = [0, 1, 2, 3, 7]; // B C D E A
@@ -179,14 +180,14 @@ pub fn safe_instruction(rng: &mut Rng) -> Vec<u8> {
         8 => vec![rng.pick(&[0x34u8, 0x35])],
         9 => vec![0x36, rng.byte_b()],
         10 => {
-            let a = 0xc000 + rng.below(0x1f00) as u16;
+            let a = 0xc000 + rng.below(0x0800) as u16;
             vec![0xea, a as u8, (a >> 8) as u8]
         }
         11 => {
             let a = if rng.chance(1, 2) { 0x4000 + rng.below(0x4000) as u16 } else { rng.pick(&[0xc000u16, 0xc100, 0x0000, 0x3fff, 0x4000, 0x7fff, 0xff80, 0xa000]) };
             vec![0xfa, a as u8, (a >> 8) as u8]
         }
-        12 => vec![rng.pick(&[0xe0u8, 0xf0]), 0x80 + rng.below(0x7f) as u8],
+        12 => vec![rng.pick(&[0xe0u8, 0xf0]), 0x80 + rng.below(0x40) as u8],
         13 => vec![rng.pick(&[0x07u8, 0x0f, 0x17, 0x1f, 0x27, 0x2f, 0x37, 0x3f])],
         14 => vec![rng.pick(&[0xc6u8, 0xce, 0xd6, 0xde, 0xe6, 0xee, 0xf6, 0xfe]), rng.byte_b()],
         _ => match rng.below(4) {
